@@ -40,6 +40,47 @@ Theorem C10_partial_contained_anywhere : forall c k s n p,
 Proof. exact contained_anywhere. Qed.
 Print Assumptions C10_partial_contained_anywhere.
 
+(* A failure INSIDE a stage: the OS refuses the first creation of a file or directory with a given base name
+   (what FileManager.write_file / ensure_dir see).  The emitters that have an except handler (client, mocks)
+   append to an error log in the system temp directory before re-raising; [wf_log]: that log is not below the
+   project root (environment assumption).  Same two conclusions, for every name, configuration and file system. *)
+Theorem C10_partial_noforce_io : forall c name s,
+  wf_tmp c = true -> wf_log c = true -> guard_F10b c = true ->
+  force c = false -> exists_b s (out_dir c) = true ->
+  restrict_root c (fst (generate_io c name s)) = restrict_root c s.
+Proof. exact noforce_untouched_io. Qed.
+Print Assumptions C10_partial_noforce_io.
+
+Theorem C10_partial_contained_io : forall c name s p,
+  wf_pkg c = true -> wf_tmp c = true -> wf_log c = true -> guard_F10b c = true ->
+  In p (touched s (plan_io c name s)) -> sunder (root c) p = true -> allowed c p = true.
+Proof. exact contained_io. Qed.
+Print Assumptions C10_partial_contained_io.
+
+(* ... and the call raises, unless the refusal hits a model module, where it is swallowed (F10c) *)
+Theorem C10_partial_io_raises : forall c name s,
+  io_refused c name s = true -> guard_F10c c name s = true -> exists st, snd (generate_io c name s) = FailIO st.
+Proof. exact io_raises. Qed.
+Print Assumptions C10_partial_io_raises.
+
+Theorem C10_refuted_F10c :
+  wf_pkg cfg_F10c = true /\ wf_tmp cfg_F10c = true /\ wf_log cfg_F10c = true /\ guard_F10b cfg_F10c = true
+  /\ force cfg_F10c = false /\ exists_b fs_F10c (out_dir cfg_F10c) = true
+  /\ guard_F10c cfg_F10c (s_pet ++ s_dot_tmp) fs_F10c = false
+  /\ io_refused cfg_F10c (s_pet ++ s_dot_tmp) fs_F10c = true
+  /\ snd (generate_io cfg_F10c (s_pet ++ s_dot_tmp) fs_F10c) = Returned Ok.
+Proof. exact refuted_F10c. Qed.
+Print Assumptions C10_refuted_F10c.
+
+Theorem C10_io_nonvacuous :
+  wf_pkg cfg_ok_force = true /\ wf_log cfg_ok_force = true
+  /\ snd (generate_io cfg_ok_force s_client_py fs_ok) = FailIO Client
+  /\ lookup (sys_tmp cfg_ok_force ++ [s_error_log]) (fst (generate_io cfg_ok_force s_client_py fs_ok)) = Some (File 1)
+  /\ snd (generate_io cfg_ok s_mock_client fs_ok) = FailIO Mocks
+  /\ (length (filter (sunder pR) (touched fs_ok (plan_io cfg_ok_force s_client_py fs_ok))) > 30)%nat.
+Proof. exact io_nonvacuous. Qed.
+Print Assumptions C10_io_nonvacuous.
+
 (* The call returns iff no stage failed and (in the diff path) nothing differs; it fails with the
    injected stage iff that stage is reached. *)
 Theorem C10_result : forall c k s,
